@@ -24,11 +24,32 @@ class ContractError(Exception):
 
 
 # ---------------------------------------------------------------------------------------------------------------------
-from pyvc.types import Ty, Int, Real, Bool, Arr, List  # noqa: E402,F401
+from pyvc.types import Ty, Int, Real, Bool, Arr, List, Float  # noqa: E402,F401
+
+
+_fd = z3.Datatype("PyFloat")
+_fd.declare("nan")
+_fd.declare("fin", ("val", R))
+FL = _fd.create()       # Python float with NaN: nan | fin(real)
 
 
 def zsort(kind):
-    return {"int": I, "real": R, "bool": B}[kind]
+    return {"int": I, "real": R, "bool": B, "float": FL}[kind]
+
+
+def is_fl(v):
+    return is_z3(v) and v.sort() == FL
+
+
+def lift_fl(v):
+    if is_fl(v):
+        return v
+    if isinstance(v, PyObj) and v.kind == "float" and v.val != v.val:
+        return FL.nan
+    t = to_z3(v)
+    if z3.is_int(t):
+        t = z3.ToReal(t)
+    return FL.fin(t)
 
 
 def arr_sort(kind, ndim):
@@ -146,6 +167,8 @@ def is_real(v):
 
 def coerce(v, kind):
     """coerce a scalar value to the sort of an array element / variable"""
+    if kind == "float":
+        return lift_fl(v)
     t = to_z3(v)
     if kind == "real" and z3.is_int(t):
         return z3.ToReal(t)
@@ -340,6 +363,22 @@ class Engine:
                 and not isinstance(b, (PyObj, tuple)) and (self.as_vec(st, a) is not None or self.as_vec(st, b) is not None) \
                 and isinstance(op, (ast.Add, ast.Sub)):
             return self.vec_op(st, a, b, lambda x, y: self.arith(op, x, y, st, line, guard), line, guard)
+        if is_fl(a) or is_fl(b) or (isinstance(a, PyObj) and a.kind == "float") or (isinstance(b, PyObj) and b.kind == "float"):
+            fa, fb = lift_fl(a), lift_fl(b)
+            fn_ = self.fn_key.split("::")[-1]
+            if isinstance(op, ast.Div):
+                self.emit("%s.safety.div@L%s" % (fn_, line - self.fndef.lineno), "safety", st,
+                          z3.Implies(FL.is_fin(fb), FL.val(fb) != 0), line, guard, note="float division by non-zero")
+                body = FL.val(fa) / FL.val(fb)
+            elif isinstance(op, ast.Add):
+                body = FL.val(fa) + FL.val(fb)
+            elif isinstance(op, ast.Sub):
+                body = FL.val(fa) - FL.val(fb)
+            elif isinstance(op, ast.Mult):
+                body = FL.val(fa) * FL.val(fb)
+            else:
+                raise Unsupported("float operator")
+            return z3.If(z3.Or(FL.is_nan(fa), FL.is_nan(fb)), FL.nan, FL.fin(body))
         if isinstance(a, PyObj) or isinstance(b, PyObj) or isinstance(a, Ref) or isinstance(b, Ref) \
                 or isinstance(a, (Vec, tuple)) or isinstance(b, (Vec, tuple)):
             raise Unsupported("arithmetic on non-scalar at line %s" % line)
@@ -394,6 +433,23 @@ class Engine:
         return self.arith(node.op, a, b, st, node.lineno, guard)
 
     def cmp(self, op, a, b):
+        if is_fl(a) or is_fl(b) or (isinstance(a, PyObj) and a.kind == "float") or (isinstance(b, PyObj) and b.kind == "float"):
+            fa, fb = lift_fl(a), lift_fl(b)
+            both = z3.And(FL.is_fin(fa), FL.is_fin(fb))
+            va, vb = FL.val(fa), FL.val(fb)
+            if isinstance(op, ast.Lt):
+                return z3.And(both, va < vb)
+            if isinstance(op, ast.LtE):
+                return z3.And(both, va <= vb)
+            if isinstance(op, ast.Gt):
+                return z3.And(both, va > vb)
+            if isinstance(op, ast.GtE):
+                return z3.And(both, va >= vb)
+            if isinstance(op, ast.Eq):
+                return z3.And(both, va == vb)
+            if isinstance(op, ast.NotEq):
+                return z3.Not(z3.And(both, va == vb))
+            raise Unsupported("float comparison")
         if isinstance(a, PyObj) or isinstance(b, PyObj):
             if isinstance(op, (ast.Is, ast.Eq)) or isinstance(op, (ast.IsNot, ast.NotEq)):
                 same = isinstance(a, PyObj) and isinstance(b, PyObj) and a.kind == b.kind and a.val == b.val
@@ -467,7 +523,12 @@ class Engine:
         return tuple(self.ev(e, st, guard) for e in node.elts)
 
     def ev_List(self, node, st, guard):
-        # a list literal that is only read (e.g. passed to vdot): modelled as an immutable tuple
+        if not node.elts:
+            # a fresh growable list (element sort fixed by the first append)
+            base = "list#%d" % next(_fresh)
+            st.heap[base] = HeapObj(None, [z3.IntVal(0)], None, 1, "list")
+            return Ref(base)
+        # a list literal that is only read (e.g. passed to vdot) or whose items are lists: an immutable tuple
         return tuple(self.ev(e, st, guard) for e in node.elts)
 
     def as_vec(self, st, v):
@@ -804,6 +865,11 @@ class Engine:
             if isinstance(val, Ref):
                 raise Unsupported("array-valued store")
             self.store(st, ref, [idxs[-1]], val)
+        elif isinstance(target, ast.Attribute):
+            obj = self.ev(target.value, st)
+            if not (isinstance(obj, PyObj) and obj.kind == "object"):
+                raise Unsupported("attribute store on a non-object")
+            st.env["%s.%s" % (obj.val, target.attr)] = val
         else:
             raise Unsupported("assignment target %s" % type(target).__name__)
 
@@ -1098,6 +1164,29 @@ class Engine:
         it = s.iter
         if isinstance(it, ast.Call) and isinstance(it.func, ast.Name) and it.func.id == "range" and "range" not in st.env:
             return self.for_range(s, st)
+        k = self.loop_ord[id(s)]
+        n_unroll = (getattr(self.contract, "unroll", None) or {}).get(k)
+        if n_unroll is not None and isinstance(s.target, ast.Name):
+            seq = self.ev(it, st)
+            if isinstance(seq, Ref) and self.ref_ndim(st, seq) == 1:
+                fn = self.fn_key.split("::")[-1]
+                self.emit("%s.loop%d.unwind(%d)" % (fn, k, n_unroll), "unwinding", st, self.ref_len(st, seq) == n_unroll,
+                          s.lineno, note="the loop runs exactly %d times" % n_unroll)
+                out, cur = [], [st]
+                for i in range(n_unroll):
+                    nxt = []
+                    for c in cur:
+                        c.env[s.target.id] = self.sel(c, seq, [i])
+                        for kind, s2, val in self.run_block(s.body, c):
+                            if kind in ("normal", "continue"):
+                                nxt.append(s2)
+                            elif kind == "break":
+                                out.append(("normal", s2, None))
+                            else:
+                                out.append((kind, s2, val))
+                    cur = nxt
+                out.extend(("normal", c, None) for c in cur)
+                return out
         raise Unsupported("for over %s at line %s" % (ast.dump(it)[:40], s.lineno))
 
     def for_range(self, s, st):
@@ -1171,6 +1260,9 @@ class Engine:
             if ty.kind == "obj":
                 st.env[p] = PyObj("object", p)
                 continue
+            if p in (c.fixed or {}):
+                st.env[p] = c.fixed[p]
+                continue
             if ty.kind in ("arr", "list"):
                 ref = self.new_array(st, "in_" + p, ty.elem, ty.ndim, kind=ty.kind)
                 st.env[p] = ref
@@ -1179,6 +1271,15 @@ class Engine:
                 z = z3.Const("in_" + p, zsort(ty.kind))
                 st.env[p] = z
                 inputs[p] = ("scalar", z, ty)
+        for key, ty in (c.fields or {}).items():
+            if ty.kind in ("arr", "list"):
+                ref = self.new_array(st, "in_" + key, ty.elem, ty.ndim, kind=ty.kind)
+                st.env[key] = ref
+                inputs[key] = ("arr", ref.base, ty)
+            else:
+                z = z3.Const("in_" + key, zsort(ty.kind))
+                st.env[key] = z
+                inputs[key] = ("scalar", z, ty)
         self.inputs = inputs
         self.entry_heap = dict(st.heap)
         for name, src in c.requires.items():
@@ -1230,7 +1331,7 @@ class Engine:
                 p2.old = entry
                 # parameters in postconditions denote their ENTRY values for scalars, current heap for arrays
                 for p in c.param_names:
-                    if not isinstance(entry.env[p], (Ref, PyObj)):
+                    if not isinstance(entry.env[p], (Ref, PyObj)) or p in (c.fixed or {}):
                         p2.env[p] = entry.env[p]
                 goal = to_bool(self.evc(src, p2))
                 self.emit("%s.ensures.%s" % (fn, name), "postcondition", p2, goal, note=src)
